@@ -236,6 +236,7 @@ pub fn handle_crash<S: Scenario>(cfg: &RunCfg, signal: i32, run: u64, ctx: [u64;
         "run": run,
         "tier": cfg.tier.name(),
         "crash": true,
+        "build": crate::dev::EIO_BUILD,
         "signal": sig,
         "trace": cur,
         "original_trace_digest": trace_digest(&original),
